@@ -1429,7 +1429,7 @@ pub fn t_order_vft(a: &[i64]) -> Val {
 
 // t_equiv: a description and a rewritten but equivalent description (C20).
 //   extern X0 (s0, al), X1 (s1, al);  type T { [vftable { v0; v1 }] f0: X0, <gap g>, f1: X1 }  enum t: i32 { A = e0, B, C }
-// a = [ps, s0, s1, al, g, e0, vft, r_addr0, r_gap, r_size, r_index, r_enum, r_order, r_addr1, base_mode, packed (2 = packed with a leading u8 field), gap_style]
+// a = [ps, s0, s1, al, g, e0, vft, r_addr0, r_gap, r_size, r_index, r_enum, r_order, r_addr1, base_mode, packed (2 = packed with a leading u8 field), gap_style, gap_split]
 //   r_addr0 : f0 gets the explicit address it already has          r_addr1: same for f1
 //   r_gap   : the gap is written as `_: unknown<g>` in the first description and as #[address] on f1 in the second
 //   r_size  : #[size(natural size)] added        r_index : #[index(1)] on v1      r_enum : `B = e0 + 1` written out
@@ -1475,7 +1475,19 @@ pub fn t_equiv(a: &[i64]) -> Val {
             }
             TS::field((V::Public, "f1"), T::ident(if base_mode { "Bv" } else { "X1" })).with_attributes(at)
         };
-        if a[8] != 0 {
+        let gap_split = a.len() > 17 && a[17] != 0 && a[8] != 0;
+        if gap_split {
+            // a[17]: the gap is two adjacent fields `_: unknown<1>`, `_: unknown<g - 1>` in the first description; the second keeps the first of them and reaches f1 by
+            // its address (the padding pyxis generates must be its own region, exactly like the field it replaces)
+            let h: usize = 1;
+            stmts.push(TS::field((V::Private, "_"), T::unknown(h)));
+            if rw {
+                stmts.push(mk_f1(true));
+            } else {
+                stmts.push(TS::field((V::Private, "_"), T::unknown(g.wrapping_sub(h))));
+                stmts.push(mk_f1(on(13)));
+            }
+        } else if a[8] != 0 {
             // gap spelled as unknown<g> (first description) or as an address on f1 (second)
             if rw {
                 stmts.push(mk_f1(true));
